@@ -77,7 +77,9 @@ def corpus():
     r2 = (b'GET / HTTP/1.1\r\n\r\n', b'')
     def c(script, reqs): return {'case': {'script': [hx(s) for s in script], 'canon': [hx(h + b) for h, b in reqs], 'eof': True, 'class': classify(reqs, script), 'kind': 'corpus'}}
     s = r1[0] + r1[1]
-    return [c([r1[0], r1[1], r2[0]], [r1, r2]),                       # body entirely after the head, starting with NUL (was: misread)
+    odd = (b'POST /a HTTP/1.1\r\nX\r\n\r\nY: v\r\nContent-Length: 3\r\n\r\n', b'abc')          # a header NAME holding a blank line (accepted by the lenient parser): the head ends where the parser stops
+    return [c([odd[0] + b'a', b'bc', r2[0]], [odd, r2]),
+            c([r1[0], r1[1], r2[0]], [r1, r2]),                       # body entirely after the head, starting with NUL (was: misread)
             c([s[:-2], s[-2:], r2[0]], [r1, r2]),                      # body split inside
             c([s[:10], s[10:], r2[0]], [r1, r2]),                      # known finding: head split
             c([s + r2[0]], [r1, r2]),                                  # known finding: two requests in one read
